@@ -405,7 +405,23 @@ class FactSet:
                     for io in v.get('inits') or ():
                         if isinstance(io.get('init'), dict):
                             io['init'] = normalise(io['init'])
+            if not os.environ.get('ORV_NO_INLINE'):
+                from .normalize import fold_new_locals, set_context
+                try:
+                    with open(os.path.join(os.path.dirname(os.path.abspath(__file__)), 'inventory.json')) as fh:
+                        known = json.load(fh).get('locals')
+                except FileNotFoundError:
+                    known = None
+                self.folded_locals = []
+                if known is not None:
+                    set_context(raw['functions'])
+                    for k, v in raw['functions'].items():
+                        if v.get('body') and (v.get('loc') or '').startswith(root):
+                            fold_new_locals(v, known.get(k, ()), self.folded_locals)
+                    set_context(None)
             raw['_normalised'] = True
+        from .tables import register_enums
+        register_enums(self.enums)
         self.fns = {k: Fn(v) for k, v in raw['functions'].items()}
         for f in self.fns.values():
             f.fs = self
